@@ -12,6 +12,10 @@ BASE_OPTIONS = dict(
     intake_constraints="enabled", stored_food="baseline", ratio_stocks_untouched="zero", shutoff="long_delayed_shutoff",
     cull="do_eat_culled", fat="not_required", protein="not_required", meat_strategy="reduce_breeding", NMONTHS=120)
 
+# the world aggregate (scale=global): the options that need their *_globally variants
+WORLD_OPTIONS = dict(BASE_OPTIONS, scale="global", seasonality="nuclear_winter_globally", grasses="global_nuclear_winter",
+                     crop_disruption="global_nuclear_winter", waste="baseline_globally")
+
 _rows = None
 
 
@@ -26,7 +30,7 @@ def country_rows():
 
 
 def options(**over):
-    o = dict(BASE_OPTIONS)
+    o = dict(WORLD_OPTIONS if over.get("scale") == "global" else BASE_OPTIONS)
     o.update(over)
     return o
 
@@ -135,7 +139,8 @@ def run_scenario(iso, opts, title=None, keep_csv=False):
     """one full (up to three-round) run of the real pipeline for one country row"""
     from src.scenarios.run_scenario import ScenarioRunner
     rows = country_rows()
-    row = rows[iso]
+    world = iso == "WOR"
+    row = rows[sorted(rows)[-1]] if world else rows[iso]   # the world runner hands over an arbitrary row (plot_manuscript_figures.py)
     run = Run(iso, dict(opts))
     title = title or ("verif_%s_%d" % (iso, os.getpid()))
     run.title = title
@@ -144,9 +149,12 @@ def run_scenario(iso, opts, title=None, keep_csv=False):
     try:
         with capture(run), contextlib.redirect_stdout(out):
             sr = ScenarioRunner()
-            c, tc, sl = sr.set_depending_on_option(copy.deepcopy(opts), country_data=row)
+            if world:
+                c, tc, sl = sr.set_depending_on_option(copy.deepcopy(opts))
+            else:
+                c, tc, sl = sr.set_depending_on_option(copy.deepcopy(opts), country_data=row)
             run.constants_for_params = c
-            run.result = sr.run_and_analyze_scenario(c, tc, sl, False, False, "", row, False, row["country"], iso, title=title)
+            run.result = sr.run_and_analyze_scenario(c, tc, sl, False, False, "", row, False, "world" if world else row["country"], iso, title=title)
     except BaseException as e:  # SystemExit from sys.exit() inside the code included
         if isinstance(e, KeyboardInterrupt):
             raise
